@@ -62,8 +62,13 @@ func vpPrefix(kind int) (commit, tree, blob []byte, path string) {
 	return
 }
 
+// a legal branch name that is shaped like a line break followed by a complete journal record naming a commit that does not exist
+const vpForgedName = "topic\n1234567890123456789012345678901234567890 abcdefabcdefabcdefabcdefabcdefabcdefabcd A U Thor <a@b.cd> 1700000000 +0000\tcommit: x"
+
 func vpHostileName(sym string) string {
-	switch zzvp.Choose(9) {
+	switch zzvp.Choose(10) {
+	case 9:
+		return vpForgedName
 	case 0:
 		return "../../HEAD"
 	case 1:
